@@ -52,3 +52,8 @@ package wal
 //@   site call json.Unmarshal #1:
 //@     assert [crc-gate] calculatedChecksum == checksum && calculatedChecksum == uf("crc32", uint32, it.readBuf) && samebase(arg0, it.readBuf)
 //@ end
+
+//@ func NewWALReader
+//@   props C10
+//@   ensures [reader-or-error] (result0 != nil) == (result1 == nil)
+//@ end
